@@ -103,6 +103,9 @@ func devCmd(args []string) {
 		for k, n := range r.Unmod {
 			fmt.Printf("   unmodelled: %s x%d\n", k, n)
 		}
+		for k := range r.Notes {
+			fmt.Printf("   note: %s\n", k)
+		}
 		staticDischarge(r.Obls)
 		if *solve {
 			dir := "/tmp/gvc-dev"
